@@ -22,9 +22,11 @@ def run(ctx):
     reqs, exps, sreq, sexp, metas = [], [], [], [], []
     versions = list(range(1, 11)) + [14, 20, 27, 40] if tier == "thorough" else [1, 2, 3, 4, 5, 7, 10]
     borders = list(range(0, 9)) + [13]
-    for v in versions:
-        for b in borders:
-            for hist in ("fresh", "made", "add-after-make", "border-changed", "ctor-border"):
+    combos = [(v, b, hist) for v in versions for b in borders for hist in ("fresh", "made", "add-after-make", "border-changed", "ctor-border")]
+    combos += [(40, 5, "fresh"), (40, 13, "made"), (39, 7, "fresh"), (36, 13, "fresh"), (1, 90, "fresh")]      # widest frames
+    for (v, b, hist) in combos:
+        if True:
+            if True:
                 if tier != "thorough" and v > 5 and hist not in ("fresh", "add-after-make") and b % 3:
                     continue
                 data = gens.payload(rnd, rnd.choice(["lower", "digits", "bytes"]), rnd.randrange(1, 8))
